@@ -721,7 +721,7 @@ func replayRace(c *Ctx, raw json.RawMessage) {
 }
 
 func checkC14(c *Ctx) {
-	c.rule = "MC: 3 goroutines x 2 pooled objects x span requests, every interleaving of Acquire / Release / CAS-lock / bump / slice-unlock (9 steps): exclusive ownership, reset on recycle, disjoint span regions, exclusive lock; TLC finds the violation when fields are not cleared before Put. APALACHE: the conjunction of these invariants plus a strengthening (Ind_Concurrency.tla) is inductive for every span size, request size and run length (base case, inductive step, negative control, non-vacuity probes). TLAPS: Proof_Concurrency.tla proves Spec => []IndInv for arbitrary sets of goroutines and objects (29 obligations; a negative control must fail). TRACE: stress runs (8..24 goroutines, create/use/release cycles of BufferReader, BufferWriter, SkipDecoder, BytesSkipDecoder, ReaderSkipDecoder, ttheader and Base codecs with the span allocator on, concurrent Get on a shared map, and the value-only helpers - exceptions with ids outside the default-message table, PrependError / errors.Is / message envelopes, unsafex, private string maps and unknown-field trees) with per-goroutine self-checking payloads over the poisoning pool double; the acquisition/release log (after Get / before Put, one mutex) must be enabled Acquire/Release actions and every self-check ok. RACE: the same driver built with -race against the real mcache, several seeds; any report is a violation. The stress also decodes hand-built foreign-peer TTHeader frames (transform ids, padding between sections) through both decoders. ... and the failure paths: every decoder on its own damaged input."
+	c.rule = "MC: 3 goroutines x 2 pooled objects x span requests, every interleaving of Acquire / Release / CAS-lock / bump / slice-unlock (9 steps): exclusive ownership, reset on recycle, disjoint span regions, exclusive lock; TLC finds the violation when fields are not cleared before Put. APALACHE: the conjunction of these invariants plus a strengthening (Ind_Concurrency.tla) is inductive for every span size, request size and run length (base case, inductive step, negative control, non-vacuity probes). TLAPS: Proof_Concurrency.tla proves Spec => []IndInv for arbitrary sets of goroutines and objects (29 obligations; a negative control must fail). TRACE: stress runs (8..24 goroutines, create/use/release cycles of BufferReader, BufferWriter, SkipDecoder, BytesSkipDecoder, ReaderSkipDecoder, ttheader and Base codecs with the span allocator on, concurrent Get on a shared map, and the value-only helpers - exceptions with ids outside the default-message table, PrependError / errors.Is / message envelopes, unsafex, private string maps and unknown-field trees) with per-goroutine self-checking payloads over the poisoning pool double; the acquisition/release log (after Get / before Put, one mutex) must be enabled Acquire/Release actions and every self-check ok. RACE: the same driver built with -race against the real mcache, several seeds; any report is a violation. The stress also decodes hand-built foreign-peer TTHeader frames (transform ids, padding between sections) through both decoders. ... and the failure paths: every decoder on its own damaged input. Every error the stress gets is rendered every way (Error, String, %v, %+v, TypeId, Msg, Unwrap chain)."
 	c.MC("MC_Concurrency.tla", "MC_Concurrency.cfg", 8)
 	// unbounded safety (Apalache): IndInv of Ind_Concurrency.tla is inductive for every span size >= 1, every request
 	// size and runs of any length (3 goroutines, 3 objects); the same step fails when fields are not cleared before
